@@ -53,10 +53,7 @@ func writerChunks(tokens []string) []int {
 		size += len(t)
 	}
 	blocksCount := size/realBlockThreshold + 1
-	blockSize := len(tokens) / blocksCount
-	if blockSize == 0 {
-		return nil // the real writer cannot lay such a field out (fewer tokens than blocks)
-	}
+	blockSize := max(1, len(tokens)/blocksCount) // few huge tokens: at least one token per block
 	var out []int
 	for n := len(tokens); n > 0; {
 		r := min(blockSize, n)
